@@ -597,9 +597,13 @@ def modes():
 class _ObserverStub:
     """a matched-observer after an arbitrary scan: ANY list of hits (symbolic sequence), any stream text; the flag is the
     observer's invariant (matched <=> at least one hit, driver:match_all / match_first establish it)"""
-    def __init__(self):
-        self.addr_list = SymSeq("hits", Name("hit_k"), 0)
-        self.matched = SymBool(z3.Int("len!hits") > 0)
+    def __init__(self, hits=None):
+        if hits is None:
+            self.addr_list = SymSeq("hits", Name("hit_k"), 0)
+            self.matched = SymBool(z3.Int("len!hits") > 0)
+        else:      # a concrete list at the edges (equal hits, text order != scan order, none)
+            self.addr_list = list(hits)
+            self.matched = bool(hits)
         self.stringified_instructions = Name("stream")
 
     def finalize(self):
@@ -624,12 +628,12 @@ def returned_value():
         holder: Dict[str, Any] = {}
         calls: List[Any] = []
 
-        def fn(rmode=rmode):
+        def fn(rmode=rmode, hits=None):
             calls.clear()
             orig_mo, orig_cb, orig_pb = J.match.MatchedObserver, vars(J.match.ConsumerBuilder)["build"], vars(J.match.ProducerBuilder)["build"]
 
             def mk():
-                holder["mo"] = _ObserverStub()
+                holder["mo"] = _ObserverStub(hits)
                 return holder["mo"]
             J.match.MatchedObserver = mk
             J.match.ConsumerBuilder.build = staticmethod(lambda *a, **k: _ConsumerStub(calls))
@@ -645,6 +649,30 @@ def returned_value():
                 return [mop._do_matching_and_get_result(regex_rule=Name("rule"), assembly_style=J.gd.DisassStyle.att), holder["mo"]]
             finally:
                 J.match.MatchedObserver, J.match.ConsumerBuilder.build, J.match.ProducerBuilder.build = orig_mo, orig_cb, orig_pb
+        # the same postcondition on concrete lists at the edges (the ones observer-finalize uses): equal hits, hits whose text
+        # order differs from the scan order, no hits -- a de-duplication or a sort in this glue code fails a NAMED obligation
+        # with its witness even where the symbolic sequence refuses the operation (RUN undecided)
+        if rmode != "all_instructions_string":
+            for lid, hits in (("duplicates", ["0", "0", "0"]), ("text-order", ["ff8", "1000", "1004"]),
+                              ("full-text-dups", ["0::push,%rbp,|", "0::push,%rbp,|"]), ("empty", []), ("one", ["401000"])):
+                want = bool(hits) if rmode == "bool" else list(hits)
+                try:
+                    crun = sym_run(lambda hits=hits: fn(hits=hits))
+                    ok, det = bool(crun.paths), ""
+                    for cp in crun.paths:
+                        if cp.kind != "ret":
+                            ok, det = False, repr(cp.value)
+                            break
+                        r, mo = cp.value
+                        det = repr(r)
+                        if not (type(r) is type(want) and r == want and list(mo.addr_list) == list(hits)):
+                            ok = False
+                            break
+                except Exception as e:   # noqa
+                    ok, det = False, repr(e)
+                obs.append(simple_ob(f"return:{rmode}:{lid}:POST", func, "POST",
+                                     f"[{lid}] return mode {rmode}: the observer holds {hits}; the caller receives exactly that (flag / list, scan order, repeats kept)",
+                                     ok, ["C11", "C12"], detail=det[:160], witness=repr(hits)))
         try:
             run = sym_run(fn)
         except Exception as e:    # noqa  (e.g. the hits are iterated natively: sorted / set / filtering)
